@@ -3,8 +3,8 @@
 # Confirms a seeded change delivered in /tmp/wt_<Cxx>_out/mutant<N>.{diff,_demo.py,txt}:
 #  suite passes with it, demo fails with it and passes without it, then runs the given checks against it.
 P=$1; N=$2; shift 2
-OUT=/tmp/wt_${P}_out
-W=/tmp/ev_${P}_$N
+OUT=/tmp/wt${ROUND:+$ROUND}_${P}_out
+W=/tmp/ev${ROUND}_${P}_$N
 rm -rf $W; git -C /repo worktree prune; git -C /repo worktree add -q --detach $W HEAD || exit 3
 cp /repo/aldy/indelpost/*.so $W/aldy/indelpost/
 cd $W
